@@ -3,6 +3,7 @@ package main
 import (
 	"fmt"
 	"go/types"
+	"strings"
 
 	"golang.org/x/tools/go/ssa"
 )
@@ -182,7 +183,9 @@ func (st *State) mapCard(t types.Type, m Term) Term {
 	_, card := mapKeys(t)
 	h := st.heap(card, heapSort(1, SInt))
 	c := tSelect(h, m, SInt)
-	st.assume(tLe(intLit(0), c))
+	if !strings.Contains(m.S, "!q") { // not under a quantifier binder
+		st.assume(tLe(intLit(0), c))
+	}
 	return tIte(tEq(m, intLit(0)), intLit(0), c)
 }
 
